@@ -1,6 +1,8 @@
 (* C14 - wire codecs are exact inverses and preserve field kinds.
    Statements only; proofs live in Proofs/Codec*Proofs.v. *)
-From ST Require Import Base.Ints Base.Bytes Model.CodecNtp Proofs.CodecNtpProofs.
+From ST Require Import Base.Ints Base.Bytes Model.CodecNtp Proofs.CodecNtpProofs
+  Model.CodecCsptp Proofs.CodecCsptpProofs Model.CodecNtske Proofs.CodecNtskeProofs
+  Model.CodecCookie Proofs.CodecCookieProofs Model.CodecNts Proofs.CodecNtsProofs.
 Open Scope Z_scope.
 
 (* ---------------- NTP header ---------------- *)
@@ -54,3 +56,261 @@ Theorem C14_ntp_dec_meets_oracle : forall p0 b, bytes_ok b ->
   C14_ntp_dec_ok b (snd d) (ntp_encode (fst d)) (ntp_leap (fst d)) (ntp_version (fst d)) (ntp_mode (fst d)) = true.
 Proof. exact ntp_dec_meets_oracle. Qed.
 Print Assumptions C14_ntp_dec_meets_oracle.
+
+(* ---------------- CSPTP message and TLVs ---------------- *)
+
+(* Message: for every well-formed value and every buffer of at least 44 bytes the encoder
+   writes exactly bytes 0..43 (the rest of the buffer keeps its content), decoding the
+   buffer returns the value, and decoding one byte fewer than the 44 written fails *)
+Theorem C14_csptp_msg_dec_enc : forall m b,
+  msg_wf m -> (44 <= length b)%nat ->
+  exists e, csptp_encode_msg b m = Ok e /\ length e = length b /\ skipn 44 e = skipn 44 b /\ bytes_ok (firstn 44 e) /\
+            forall m0, csptp_decode_msg m0 e = (m, true) /\ csptp_decode_msg m0 (firstn 43 e) = (m0, false).
+Proof. exact csptp_msg_dec_enc. Qed.
+Print Assumptions C14_csptp_msg_dec_enc.
+
+(* re-encoding a decoded header reproduces its 44 bytes *)
+Theorem C14_csptp_msg_enc_dec : forall m0 b b',
+  bytes_ok b -> (44 <= length b)%nat -> (44 <= length b')%nat ->
+  exists m, csptp_decode_msg m0 b = (m, true) /\ msg_wf m /\
+            csptp_encode_msg b' m = Ok (firstn 44 b ++ skipn 44 b').
+Proof. exact csptp_msg_enc_dec. Qed.
+Print Assumptions C14_csptp_msg_enc_dec.
+
+Theorem C14_csptp_msg_short : forall m m0 b, (length b < 44)%nat ->
+  csptp_encode_msg b m = Panic /\ csptp_decode_msg m0 b = (m0, false).
+Proof. intros m m0 b H. split; [apply csptp_msg_short_panics | apply csptp_msg_decode_short]; exact H. Qed.
+Print Assumptions C14_csptp_msg_short.
+
+(* request TLV at its declared length tlv_len (36, or 54 with the ServerStateDS flag) *)
+Theorem C14_csptp_req_dec_enc : forall t b,
+  req_wf t -> (tlv_len t <= length b)%nat ->
+  exists e, csptp_encode_req b t = Ok e /\ length e = length b /\ skipn (tlv_len t) e = skipn (tlv_len t) b /\
+            bytes_ok (firstn (tlv_len t) e) /\
+            forall t0, csptp_decode_req t0 e = (t, true) /\
+                       snd (csptp_decode_req t0 (firstn (tlv_len t - 1) e)) = false.
+Proof. exact csptp_req_dec_enc. Qed.
+Print Assumptions C14_csptp_req_dec_enc.
+
+Theorem C14_csptp_req_short : forall t b, (length b < tlv_len t)%nat -> csptp_encode_req b t = Panic.
+Proof. exact csptp_req_short_panics. Qed.
+Print Assumptions C14_csptp_req_short.
+
+(* decode then re-encode: the 14 meaningful bytes come back, the padding as zeros *)
+Theorem C14_csptp_req_enc_dec : forall t0 b b',
+  bytes_ok b -> (14 <= length b)%nat ->
+  let t := fst (csptp_decode_req t0 b) in
+  req_wf t /\ (snd (csptp_decode_req t0 b) = true <-> (tlv_len t <= length b)%nat) /\
+  ((tlv_len t <= length b')%nat ->
+   csptp_encode_req b' t = Ok (firstn 14 b ++ repeat 0 (tlv_len t - 14) ++ skipn (tlv_len t) b')).
+Proof. exact csptp_req_enc_dec. Qed.
+Print Assumptions C14_csptp_req_enc_dec.
+
+(* response TLV; well-formed = fields in range and ServerStateDS zero unless the flag is set *)
+Theorem C14_csptp_resp_dec_enc : forall t b,
+  resp_wf t -> (tlv_len t <= length b)%nat ->
+  exists e, csptp_encode_resp b t = Ok e /\ length e = length b /\ skipn (tlv_len t) e = skipn (tlv_len t) b /\
+            bytes_ok (firstn (tlv_len t) e) /\
+            forall t0, csptp_decode_resp t0 e = (t, true) /\
+                       snd (csptp_decode_resp t0 (firstn (tlv_len t - 1) e)) = false.
+Proof. exact csptp_resp_dec_enc. Qed.
+Print Assumptions C14_csptp_resp_dec_enc.
+
+Theorem C14_csptp_resp_short : forall t b, (length b < tlv_len t)%nat -> csptp_encode_resp b t = Panic.
+Proof. exact csptp_resp_short_panics. Qed.
+Print Assumptions C14_csptp_resp_short.
+
+(* every byte string of at least 14 bytes: either it is shorter than the length its own flag
+   field declares and decoding fails, or it decodes to a well-formed value whose
+   re-encoding reproduces the declared number of bytes *)
+Theorem C14_csptp_resp_enc_dec : forall t0 b b',
+  bytes_ok b -> (14 <= length b)%nat ->
+  let h := dec_fields tlv_head_layout b in
+  (length b < tlv_len h)%nat /\ snd (csptp_decode_resp t0 b) = false \/
+  (tlv_len h <= length b)%nat /\
+  exists t, csptp_decode_resp t0 b = (t, true) /\ resp_wf t /\ tlv_len t = tlv_len h /\
+            ((tlv_len t <= length b')%nat ->
+             csptp_encode_resp b' t = Ok (firstn (tlv_len t) b ++ skipn (tlv_len t) b')).
+Proof. exact csptp_resp_enc_dec. Qed.
+Print Assumptions C14_csptp_resp_enc_dec.
+
+Theorem C14_csptp_msg_meets_oracle : forall m b m0, msg_wf m -> bytes_ok b ->
+  let o := csptp_encode_msg b m in let e := ok_of o b in
+  C14_fixed_enc_ok 44 m b (panicked o) e (snd (csptp_decode_msg m0 e)) (fst (csptp_decode_msg m0 e))
+     (snd (csptp_decode_msg m0 (firstn 43 e))) = true.
+Proof. exact msg_meets_oracle. Qed.
+Print Assumptions C14_csptp_msg_meets_oracle.
+
+Theorem C14_csptp_req_meets_oracle : forall t b t0, req_wf t -> bytes_ok b ->
+  let o := csptp_encode_req b t in let e := ok_of o b in
+  C14_fixed_enc_ok (tlv_len t) t b (panicked o) e (snd (csptp_decode_req t0 e)) (fst (csptp_decode_req t0 e))
+     (snd (csptp_decode_req t0 (firstn (tlv_len t - 1) e))) = true.
+Proof. exact req_meets_oracle. Qed.
+Print Assumptions C14_csptp_req_meets_oracle.
+
+Theorem C14_csptp_resp_meets_oracle : forall t b t0, resp_wf t -> bytes_ok b ->
+  let o := csptp_encode_resp b t in let e := ok_of o b in
+  C14_fixed_enc_ok (tlv_len t) t b (panicked o) e (snd (csptp_decode_resp t0 e)) (fst (csptp_decode_resp t0 e))
+     (snd (csptp_decode_resp t0 (firstn (tlv_len t - 1) e))) = true.
+Proof. exact resp_meets_oracle. Qed.
+Print Assumptions C14_csptp_resp_meets_oracle.
+
+(* ---------------- server cookies ---------------- *)
+
+(* ServerCookie (Algo, S2C, C2S) and EncryptedServerCookie (ID, Nonce, Ciphertext): for every
+   value whose byte strings are shorter than 2^16, decoding the encoding into any cookie
+   struct returns the value *)
+Theorem C14_cookie_tlv_server : forall c c0, ck_wf c ->
+  ck_decode server_cookie_types c0 (ck_encode server_cookie_types c) = (c, true).
+Proof. exact server_cookie_dec_enc. Qed.
+Print Assumptions C14_cookie_tlv_server.
+
+Theorem C14_cookie_tlv_encrypted : forall c c0, ck_wf c ->
+  ck_decode encrypted_cookie_types c0 (ck_encode encrypted_cookie_types c) = (c, true).
+Proof. exact encrypted_cookie_dec_enc. Qed.
+Print Assumptions C14_cookie_tlv_encrypted.
+
+(* the decoder's loop never runs out of the fuel it is given, whatever the input *)
+Theorem C14_cookie_decode_total : forall ty c0 b,
+  snd (ck_decode_loop (length b) ty b c0 false false false) = true.
+Proof. exact ck_decode_total. Qed.
+Print Assumptions C14_cookie_decode_total.
+
+Theorem C14_cookie_meets_oracle : forall c c0, ck_wf c ->
+  (let e := ck_encode server_cookie_types c in
+   C14_cookie_ok c e (snd (ck_decode server_cookie_types c0 e)) (fst (ck_decode server_cookie_types c0 e)) = true) /\
+  (let e := ck_encode encrypted_cookie_types c in
+   C14_cookie_ok c e (snd (ck_decode encrypted_cookie_types c0 e)) (fst (ck_decode encrypted_cookie_types c0 e)) = true).
+Proof. intros c c0 H. split; [apply server_cookie_meets_oracle | apply encrypted_cookie_meets_oracle]; exact H. Qed.
+Print Assumptions C14_cookie_meets_oracle.
+
+(* ---------------- NTS-KE records and ReadData ---------------- *)
+
+(* a message of canonical records (NextProto, one-algorithm Algorithm, Server, Port, Cookie with
+   16-bit lengths) closed by End, followed by anything: ReadData returns without error the
+   data the records spell (cookies appended in order) and leaves what follows End unread *)
+Theorem C14_ntske_records : forall rs rest d,
+  forallb canonical rs = true ->
+  read_data_flat (pack_msg (rs ++ [REnd]) ++ rest) d = (fold_left apply_record rs d, 0, rest).
+Proof. exact records_roundtrip. Qed.
+Print Assumptions C14_ntske_records.
+
+(* for EVERY segmentation of the byte stream into reads (the reader answers each Read with
+   any non-empty prefix of what is left), every stream (valid or not) and every initial Data:
+   same Data, same error class, same unread rest as reading the stream in one piece *)
+Theorem C14_ntske_segmentation : forall s sch d,
+  let '(d1, e1, r1) := read_data_chunked {| rd_rest := s; rd_sched := sch |} d in
+  let '(d2, e2, s2) := read_data_flat s d in
+  d1 = d2 /\ e1 = e2 /\ rd_rest r1 = s2.
+Proof. exact read_data_segmentation. Qed.
+Print Assumptions C14_ntske_segmentation.
+
+Theorem C14_ntske_records_segmented : forall rs rest d sch,
+  forallb canonical rs = true ->
+  let '(d1, e1, r1) := read_data_chunked {| rd_rest := pack_msg (rs ++ [REnd]) ++ rest; rd_sched := sch |} d in
+  d1 = fold_left apply_record rs d /\ e1 = 0 /\ rd_rest r1 = rest.
+Proof. exact records_roundtrip_chunked. Qed.
+Print Assumptions C14_ntske_records_segmented.
+
+(* io.ReadFull over any schedule of partial reads = cutting n bytes off the stream *)
+Theorem C14_ntske_readfull : forall n r,
+  match rf_flat n (rd_rest r) with
+  | Ok (b, s') => exists sch, rf_chunked n r = Ok (b, {| rd_rest := s'; rd_sched := sch |})
+  | Err e => rf_chunked n r = Err e
+  | _ => False
+  end.
+Proof. exact rf_chunked_spec. Qed.
+Print Assumptions C14_ntske_readfull.
+
+(* the loops of the model never run out of fuel *)
+Theorem C14_ntske_total : forall s sch d,
+  snd (fst (read_data_flat s d)) <> e_fuel /\
+  snd (fst (read_data_chunked {| rd_rest := s; rd_sched := sch |} d)) <> e_fuel.
+Proof. exact read_data_no_fuel_exhaustion. Qed.
+Print Assumptions C14_ntske_total.
+
+(* an Error record ends the exchange with the class of its code *)
+Theorem C14_ntske_error_record : forall x fuel rest d, 0 <= x < 65536 ->
+  read_data (list Z) rf_flat rf_flat (S fuel) (pack_record (RError x) ++ rest) d =
+  (d, (if x =? 0 then e_msg_critical else if x =? 1 then e_msg_badreq
+       else if x =? 2 then e_msg_internal else e_msg_unknown), rest).
+Proof. exact read_step_error. Qed.
+Print Assumptions C14_ntske_error_record.
+
+Theorem C14_ntske_meets_oracle : forall s d schs rs rest sch,
+  C14_same_results (fst (read_data_flat s d)) (map (run_sched s d) schs) = true /\
+  (forallb canonical rs = true ->
+   let res := run_sched (pack_msg (rs ++ [REnd]) ++ rest) d sch in
+   C14_records_ok rs d (fst res) (snd res) = true).
+Proof. intros. split; [apply same_results_model | apply records_model_meets_oracle]. Qed.
+Print Assumptions C14_ntske_meets_oracle.
+
+(* regression: with the single Read of the cookie body that the code had before commit
+   0924366 the result depended on the segmentation *)
+Theorem C14_ntske_segmentation_refuted_pinned :
+  exists s sch d, fst (read_data_chunked_pinned {| rd_rest := s; rd_sched := sch |} d) <> fst (read_data_flat s d).
+Proof. exact segmentation_refuted_pinned. Qed.
+Print Assumptions C14_ntske_segmentation_refuted_pinned.
+
+(* ---------------- NTS extension fields ---------------- *)
+
+(* EncodePacket writes exactly the wire format (header, unique identifier, cookies, cookie
+   placeholders, authenticator; every value zero-padded to a multiple of 4), whatever the
+   caller's buffer held before, for every packet that fits the maximum packet length;
+   nonce = the 16 bytes drawn, ct = the sealed ciphertext, both arbitrary here *)
+Theorem C14_nts_encode_wire : forall hdr tail p nonce ct,
+  length hdr = 48%nat -> (tail = [] \/ length tail = 976%nat) ->
+  (32 <= length (ni_id p))%nat -> length nonce = 16%nat ->
+  (nts_wire_len p ct <= 1024)%nat ->
+  nts_encode hdr tail p nonce ct = Ok (nts_wire hdr p nonce ct).
+Proof. exact nts_encode_wire. Qed.
+Print Assumptions C14_nts_encode_wire.
+
+(* kind preservation: DecodePacket of that encoding yields the unique identifier as a unique
+   identifier (0x104), n cookies as n cookies (0x204), m placeholders as m placeholders (0x304)
+   and the authenticator (0x404) with the same nonce and ciphertext; values come back
+   zero-padded to a multiple of 4 (decode (encode v) = pad4 v), lengths are 4 + |pad4 v| *)
+Theorem C14_nts_fields : forall hdr tail p nonce ct p0,
+  length hdr = 48%nat -> (tail = [] \/ length tail = 976%nat) ->
+  (32 <= length (ni_id p))%nat -> length nonce = 16%nat -> (16 <= length ct)%nat ->
+  (nts_wire_len p ct <= 1024)%nat ->
+  exists e, nts_encode hdr tail p nonce ct = Ok e /\ e = nts_wire hdr p nonce ct /\
+            (length e mod 4 = 0)%nat /\
+            nts_decode p0 e = (nts_decoded p0 p nonce ct, d_ok).
+Proof. exact nts_dec_enc. Qed.
+Print Assumptions C14_nts_fields.
+
+Theorem C14_nts_pad4 : forall v, (length v <= length (pad4 v) < length v + 4)%nat /\ (length (pad4 v) mod 4 = 0)%nat /\
+  firstn (length v) (pad4 v) = v.
+Proof.
+  intros v. rewrite pad4_length. destruct (pad4len_ge (length v)) as [H1 H2].
+  split; [exact H1|]. split; [exact H2|]. unfold pad4. apply firstn_app_exact. reflexivity.
+Qed.
+Print Assumptions C14_nts_pad4.
+
+(* the decoder loop terminates within its fuel for every input *)
+Theorem C14_nts_decode_total : forall p0 b, snd (nts_decode p0 b) <> d_fuel.
+Proof. exact nts_decode_total. Qed.
+Print Assumptions C14_nts_decode_total.
+
+Theorem C14_nts_meets_oracle : forall hdr p nonce ct,
+  length hdr = 48%nat -> (32 <= length (ni_id p))%nat -> length nonce = 16%nat -> (16 <= length ct)%nat ->
+  (nts_wire_len p ct <= 1024)%nat ->
+  bytes_ok hdr -> bytes_ok (ni_id p) -> Forall bytes_ok (ni_cookies p) -> Forall bytes_ok (ni_placeholders p) ->
+  bytes_ok nonce -> bytes_ok ct ->
+  let e := nts_wire hdr p nonce ct in
+  let d := nts_decode nts_pkt_empty e in
+  C14_nts_ok hdr p nonce ct e (snd d) (fst d) = true.
+Proof. exact nts_meets_oracle. Qed.
+Print Assumptions C14_nts_meets_oracle.
+
+(* the hypotheses are satisfiable *)
+Example C14_ex_canonical :
+  forallb canonical [RNextProto 0; RAlgorithm [15]; RServer [49; 50] true; RPort 123 false; RCookie [1; 2; 3]] = true.
+Proof. reflexivity. Qed.
+Example C14_ex_resp_wf : resp_wf [3; 50; 15484528; 5399923; 0; 0; 1; 2; -3; 37; 0; 0; 0; 0; 0; 0; 0; 0; 0].
+Proof. split; [simpl; lia | reflexivity]. Qed.
+Example C14_ex_ck_wf : ck_wf (15, [1; 2], [3]).
+Proof. simpl. repeat split; try lia; repeat constructor; lia. Qed.
+Example C14_ex_nts : (nts_wire_len {| ni_id := repeat 7%Z 32; ni_cookies := [repeat 1%Z 100]; ni_placeholders := [repeat 0%Z 100; repeat 0%Z 100] |} (repeat 9%Z 16) <= 1024)%nat.
+Proof. vm_compute. repeat constructor. Qed.
